@@ -11,6 +11,13 @@ else:
     sys.exit('no such property')
 wt = f'/tmp/seed{rnd}-{pid}'
 out = f'/tmp/seed{rnd}-out/{pid}'
+import glob, os
+used=[]
+for d in sorted(glob.glob(f'/verif/seeded/{pid}-*')):
+    try:
+        m=json.load(open(d+'/meta.json')); used.append('- '+m['summary'].replace('\n',' ')[:260])
+    except Exception: pass
+USED_IDEAS = ('\n\nIDEAS ALREADY USED by earlier seeders for this property (do NOT repeat these or close variants of them; find different mechanisms and different code sites):\n' + '\n'.join(used)) if (rnd and rnd != '2' and used) else ''
 print(f"""You are helping test a verification harness for the Go library gkampitakis/go-snaps (a Jest-like snapshot testing library for Go). Your job: write realistic, subtle *bugs* (source changes) that break ONE stated behavioural property of the library while the library still compiles and its existing test suite still passes. This is mutation seeding for evaluating bug-finding tools; nothing you write is ever merged.
 
 You have your own scratch git worktree of the repository at {wt} (a detached checkout of the pinned commit). Work ONLY inside {wt} and {out}. Do NOT read or touch /verif or /repo (they are off limits, so that what you write is independent).
@@ -26,7 +33,7 @@ THE PROPERTY ({pid}: {p['title']}):
 
 Quantified over: {p['quantifier']['text']}
 
-Code locations where the mechanisms behind this property live (for orientation): {', '.join(p['anchors']['files'])}
+Code locations where the mechanisms behind this property live (for orientation): {', '.join(p['anchors']['files'])}{USED_IDEAS}
 
 WHAT TO PRODUCE: two *different* changes, A and B (different mechanisms / different code sites), each of which:
  1. is a change to non-test source files of the library (no test files edited, no new dependencies), written as a plausible refactoring / optimisation / "fix" a developer might really commit;
